@@ -62,6 +62,25 @@ pub fn make_input_class(id: String, src: &Source, rng: &mut Rng, c2d_false: bool
             }
         }
     }
+    // ... and the same one level down (the dead part's features may be free in its live sibling)
+    if !c2d_false && src.n >= 2 && src.n < 16 && rng.chance(1, 12) {
+        let x = (1 + rng.below(src.n as u64)) as i32;
+        let x = if rng.coin() { x } else { -x };
+        let y = src.n + 1;
+        if let Some((lines, eff)) = crate::gen::emit_d4_dead_chain_nested(&src.cnf, x, y, &opts) {
+            let ms = crate::gen::models(&eff, y);
+            if !ms.is_empty() {
+                return Some(Input {
+                    id,
+                    n: y,
+                    format: "d4",
+                    lines,
+                    desc: format!("{} AND (-{} or {}) | d4 nested dead and-chain above f | {}", src.desc, y, -x, opts.describe()),
+                    models: Some(ms),
+                });
+            }
+        }
+    }
     let c2d = c2d_false || rng.chance(1, 3);
     // a separate class: c2d files with n-ary or nodes (multiway decisions), small n only
     let multiway = !c2d_false && src.n >= 2 && src.n <= 6 && models.is_some() && rng.chance(1, 4);
@@ -79,7 +98,7 @@ pub fn make_input_class(id: String, src: &Source, rng: &mut Rng, c2d_false: bool
             ("d4", emit_d4(&dag2, &opts, rng), "d4 root idiom (or node 1 with one unlabelled edge)".to_string())
         } else if rng.chance(1, 8) {
             let dag2 = crate::gen::add_trivial_ands(&dag, rng);
-            ("d4", emit_d4(&dag2, &opts, rng), "d4 trivial and-components (and-nodes over t only / with an extra t child)".to_string())
+            ("d4", emit_d4(&dag2, &opts, rng), "d4 trivial components (and-nodes over t only / with an extra t child, or-nodes with an extra unlabelled edge to f)".to_string())
         } else {
             ("d4", emit_d4(&dag, &opts, rng), String::new())
         }
